@@ -8,6 +8,8 @@ from harness import lib
 GENERATORS = {
     "GranCompat_gen": "translator.gen_grancompat",
     "RelKeys_gen": "translator.gen_relkeys",
+    "Params_gen": "translator.gen_params",
+    "AdjProg_gen": "translator.gen_adjprog",
 }
 
 
